@@ -61,7 +61,7 @@ def binary_harness(cname, unique):
         shared = [sigma0]
         hyps = call_hypotheses(worlds, shared)
         return finalize_cover(clauses, sigma0, shared, prefix, want_unique=unique, hyps=hyps)
-    return Harness(f"cover-{cname}", run, spec=Spec(), covers=["yielded"], finalize=fin, timeout_ms=3000, retry_unknown=False)
+    return Harness(f"cover-{cname}", run, spec=Spec(), covers=["yielded"], finalize=fin, timeout_ms=3000, retry_unknown=False, ematching_only=True)
 
 
 def not_harness():
@@ -86,7 +86,7 @@ def not_harness():
             return []
         sigma0 = worlds[0].sigma0
         return finalize_cover(clauses, sigma0, [sigma0], prefix, want_unique=True, hyps=call_hypotheses(worlds, [sigma0]))
-    return Harness("cover-Not", run, spec=Spec(), covers=["yielded"], finalize=fin, timeout_ms=3000, retry_unknown=False)
+    return Harness("cover-Not", run, spec=Spec(), covers=["yielded"], finalize=fin, timeout_ms=3000, retry_unknown=False, ematching_only=True)
 
 
 def h_canary():
@@ -100,8 +100,359 @@ def h_canary():
         h = lambda t: z3.Or(world.children["left"].h(t), world.children["right"].h(t))
         for res in vm.iterate(vm.call_method(node, "_evaluate__", Bnd(world.sigma0, world))):
             check_cover_per_yield(vm, world, world.record(vm, res), h, "CANARY")
-    return Harness("canary", run, expect_fail=True, timeout_ms=2000, retry_unknown=False)
+    return Harness("canary", run, expect_fail=True, timeout_ms=2000, retry_unknown=False, ematching_only=True)
 
 
 def harnesses():
     return [binary_harness("AND", True), binary_harness("ElseIf", True), binary_harness("Union", False), not_harness(), h_canary()]
+
+
+# ====================================================================== stage B: operands, comparator, query descriptor
+from pyvc.values import Opaque, Builtin, PyList, PySet
+from .eqlmodel import vid, boolval, iterable, HD
+
+FUNCTIONS += [(SYM, "Comparator._evaluate__"), (SYM, "Comparator.apply_operation"), (SYM, "Comparator.get_first_second_operands"),
+              (SYM, "Variable._evaluate__"), (SYM, "DomainMapping._evaluate__"),
+              (SYM, "DomainMapping._build_operation_result_and_update_truth_value_"), (SYM, "Attribute._apply_mapping_"),
+              (SYM, "QueryObjectDescriptor._evaluate__"), (SYM, "QueryObjectDescriptor.get_constrained_values"),
+              (SYM, "QueryObjectDescriptor.evaluate_selected_variables"), (SYM, "QueryObjectDescriptor._evaluate_selected_variables_from_"),
+              (SYM, "QueryObjectDescriptor.evaluate_conclusions_and_update_bindings"),
+              (SYM, "QueryObjectDescriptor.any_selected_variable_is_inferred_and_unbound"),
+              (SYM, "ResultQuantifier._process_result_"), (SYM, "optimize_or"),
+              (HD, "HashedValue.__post_init__")]
+BOUNDED_ONLY_CLAUSES = ["ForAll / Exists, Index / Call / Flatten, predicates inside queries and whole-query composition are decided by the "
+                        "bounded oracle driver only", "== / != on two iterables (krrood compares them as sets) is excluded from the Comparator lemma"]
+
+
+def tree_shape(vm, world, self_id, children):
+    """Tree-shaped expression: the node's id lies in no child's subtree, children own disjoint ids."""
+    ctx = vm.ctx
+    from .eqlmodel import Ids
+    i = z3.Const("ti", Ids)
+    cs = [world.children[c] for c in children]
+    for c in cs:
+        ctx.assume(z3.Not(c.owns(vid(self_id))))
+    for a in range(len(cs)):
+        for b in range(a + 1, len(cs)):
+            ctx.assume(z3.ForAll([i], z3.Not(z3.And(cs[a].owns(i), cs[b].owns(i))), patterns=[cs[a].owns(i)]), axiom=True)
+
+
+def check_frame(vm, world, clause, self_id, children, prefix):
+    """The node's output binds nothing outside its own subtree (carries the frame clause of the contract upwards)."""
+    from .eqlmodel import Ids
+    i = vm.ctx.fresh_const("frame_id", Ids)
+    cs = [world.children[c] for c in children]
+    outside = z3.And([i != vid(self_id)] + [z3.Not(c.owns(i)) for c in cs]) if self_id is not None else z3.And([z3.Not(c.owns(i)) for c in cs])
+    vm.ctx.check(f"{prefix}::frame-binds-nothing-outside-its-own-subtree", z3.Implies(outside, bound(clause["b"], i) == bound(world.sigma0, i)))
+
+
+def finish(prefix, unique, tau_hyps_of=None):
+    def fin(ctxs):
+        worlds = [c.world for c in ctxs if hasattr(c, "world")]
+        clauses = [cl for w in worlds for cl in w.clauses]
+        if not worlds:
+            return []
+        sigma0 = worlds[0].sigma0
+        shared = [sigma0]
+        th = (lambda t: tau_hyps_of(worlds[0], t)) if tau_hyps_of else None
+        return finalize_cover(clauses, sigma0, shared, prefix, want_unique=unique, hyps=call_hypotheses(worlds, shared), tau_hyps=th)
+    return fin
+
+
+OPFN = z3.Function("operation", Vs, Vs, z3.BoolSort())
+
+
+def comparator_harness(op_kind):
+    prefix = "Comparator._evaluate__"
+
+    def run(vm):
+        ctx = vm.ctx
+        world = EqlWorld(vm)
+        left = world.child("left", 11, kind="operand")
+        right = world.child("right", 12, kind="operand")
+        rvar = vm.alloc(vm.loader.cls(SYM, "SymbolicExpression"), {"_id_": 21}, tag="a-variable-of-the-right-operand")
+        rvar.fields["_var_"] = rvar
+        vm.spec.attr_hooks[("SymbolicExpression", "_descendants_")] = lambda it, o: PyList([])
+        vm.spec.attr_hooks[("SymbolicExpression", "_unique_variables_")] = lambda it, o: PyList(
+            [it.alloc(world.HV, {"value": rvar, "id_": 21})] if o is right else [])
+        world.known_ids |= {10, 21}
+        if op_kind == "generic":
+            op = Opaque("operation")
+        else:
+            op = vm.loader.external("operator", op_kind)
+            v = z3.Const("v", Vs)
+            ctx.assume(z3.ForAll([v], z3.Not(iterable(v)), patterns=[iterable(v)]), axiom=True)     # scalars (stated exclusion)
+        vm.spec.opaque_hooks["call"] = lambda it, f, a, k: SBool(OPFN(a[0].t, a[1].t)) if f is op else (_ for _ in ()).throw(AssertionError(f))
+        node = vm.alloc(vm.loader.cls(SYM, "Comparator"), {"left": left, "right": right, "operation": op, "_id_": 10, "_is_false_": False,
+                                                          "_eval_parent_": None, "_conclusion_": None}, tag="Comparator")
+        ctx.assume(z3.Not(bound(world.sigma0, vid(10))))       # tree-shaped expression: the node is met once per evaluation path
+        tree_shape(vm, world, 10, ["left", "right"])
+        L, R = world.children["left"], world.children["right"]
+        h = lambda t: OPFN(L.val(t), R.val(t))
+        world.mark()
+        for res in vm.iterate(vm.call_method(node, "_evaluate__", Bnd(world.sigma0, world))):
+            ctx.cover("yielded")
+            cl = world.record(vm, res)
+            check_cover_per_yield(vm, world, cl, h, prefix)
+            t = ctx.fresh_const("tau", Ts)
+            ctx.check(f"{prefix}::binds-its-own-id-to-the-truth-value",
+                      z3.And(bound(cl["b"], vid(10)), z3.Implies(ext(cl["b"], t), get(cl["b"], vid(10)) == boolval(h(t)))))
+            check_frame(vm, world, cl, 10, ["left", "right"], prefix)
+
+    def tau_hyps(world, t):
+        L, R = world.children["left"], world.children["right"]
+        return [tval(t, vid(10)) == boolval(OPFN(L.val(t), R.val(t)))]      # total assignments are consistent on derived ids
+    return Harness(f"cover-Comparator[{op_kind}]", run, spec=Spec(), covers=["yielded"], finalize=finish(prefix, True, tau_hyps),
+                   timeout_ms=3000, retry_unknown=False, ematching_only=True)
+
+
+DOM = z3.Function("in_domain", Vs, z3.BoolSort())
+
+
+class DomainModel(Opaque):
+    """Variable._domain_: a HashedIterable over the domain: every element of the domain exactly once (elements are
+    pairwise non-identical objects; value-equal twins are distinct values)."""
+
+    def __init__(self, world):
+        super().__init__("model:domain")
+        self.world = world
+        self.mem = z3.Function("dom_member", Os, Vs, z3.BoolSort())
+        self.occ = z3.Function("dom_occ", Vs, Os)
+
+    def m_truth(self, vm):
+        return True
+
+    def axioms(self):
+        o, o2 = z3.Consts("do do2", Os)
+        v = z3.Const("dv", Vs)
+        return [z3.ForAll([o, v], z3.Implies(self.mem(o, v), DOM(v)), patterns=[self.mem(o, v)]),
+                z3.ForAll([v], z3.Implies(DOM(v), self.mem(self.occ(v), v)), patterns=[DOM(v)]),
+                z3.ForAll([o, o2, v], z3.Implies(z3.And(self.mem(o, v), self.mem(o2, v)), o == o2), patterns=[z3.MultiPattern(self.mem(o, v), self.mem(o2, v))])]
+
+    def m_iter(self, vm):
+        ctx = vm.ctx
+        for ax in self.axioms():
+            ctx.assume(ax, axiom=True)
+
+        def elem(vm_, idx):
+            o = vm_.ctx.fresh_const("o_dom", Os)
+            v = vm_.ctx.fresh_const("v_dom", Vs)
+            vm_.ctx.assume(self.mem(o, v))
+            return STerm(v)
+        return SymStream("domain", elem, length=None, meta={"kind": "generator"})
+
+
+from pyvc.values import SymStream
+
+
+def variable_harness(role):
+    prefix = f"Variable._evaluate__[{role}]"
+
+    def run(vm):
+        ctx = vm.ctx
+        world = EqlWorld(vm)
+        world.known_ids.add(20)
+        dom = DomainModel(world)
+        parent_cls = "Comparator" if role == "operand" else "AND"
+        parent = vm.alloc(vm.loader.cls(SYM, parent_cls), {"_id_": 10}, tag="parent")
+        other_root = vm.alloc(vm.loader.cls(SYM, "SymbolicExpression"), {"_id_": 1}, tag="conditions-root")
+        node = vm.alloc(vm.loader.cls(SYM, "Variable"), {"_id_": 20, "_domain_": dom, "_is_false_": False, "_eval_parent_": None,
+                                                        "_conditions_root_": other_root, "_should_be_instantiated_": False}, tag="Variable")
+        i = vid(20)
+        if role == "operand":
+            h = lambda t: z3.BoolVal(True)
+        else:
+            h = lambda t: truthy(tval(t, i))        # a variable used as a condition is its truth value
+        world.mark()
+        for res in vm.iterate(vm.call_method(node, "_evaluate__", Bnd(world.sigma0, world), parent=parent)):
+            ctx.cover("yielded")
+            cl = world.record(vm, res)
+            if role == "operand" or True:
+                bound_before = bound(world.sigma0, i)
+                # domain enumeration is only a statement about operands / generators: in condition role the bound branch matters
+                hh = h if role == "operand" else (lambda t: z3.If(bound_before, truthy(tval(t, i)), z3.BoolVal(True)))
+                check_cover_per_yield(vm, world, cl, hh, prefix)
+            ctx.check(f"{prefix}::binds-its-id-to-a-domain-element-or-keeps-the-given-binding",
+                      z3.And(bound(cl["b"], i), z3.Or(bound(world.sigma0, i), DOM(get(cl["b"], i)))))
+
+    def tau_hyps(world, t):
+        return [z3.Or(bound(world.sigma0, vid(20)), DOM(tval(t, vid(20))))]       # totals assign every variable an element of its domain
+    return Harness(f"value-Variable[{role}]", run, spec=Spec(), covers=["yielded"], finalize=finish(prefix, True, tau_hyps),
+                   timeout_ms=3000, retry_unknown=False, ematching_only=True)
+
+
+def attribute_harness(role):
+    prefix = f"Attribute._evaluate__[{role}]"
+
+    def run(vm):
+        ctx = vm.ctx
+        world = EqlWorld(vm)
+        child = world.child("child", 21, kind="operand")
+        world.known_ids |= {22}
+        fa = world.attr_fn("a")
+        parent_cls = "Comparator" if role == "operand" else "Not"
+        parent = vm.alloc(vm.loader.cls(SYM, parent_cls), {"_id_": 10}, tag="parent")
+        other_root = vm.alloc(vm.loader.cls(SYM, "SymbolicExpression"), {"_id_": 1}, tag="conditions-root")
+        node = vm.alloc(vm.loader.cls(SYM, "Attribute"), {"_child_": child, "_attr_name_": "a", "_owner_class_": None, "_id_": 22, "_is_false_": False,
+                                                         "_eval_parent_": None, "_conditions_root_": other_root}, tag="Attribute")
+        if role == "operand":
+            vm.spec.havoc_exclude = set(vm.spec.havoc_exclude) | {"_is_false_"}        # frame condition proved by frame-DomainMapping below
+        ctx.assume(z3.Not(bound(world.sigma0, vid(22))))
+        tree_shape(vm, world, 22, ["child"])
+        C = world.children["child"]
+        val = lambda t: fa(C.val(t))
+        h = (lambda t: z3.BoolVal(True)) if role == "operand" else (lambda t: truthy(val(t)))
+        world.mark()
+        for res in vm.iterate(vm.call_method(node, "_evaluate__", Bnd(world.sigma0, world), parent=parent)):
+            ctx.cover("yielded")
+            cl = world.record(vm, res)
+            check_cover_per_yield(vm, world, cl, h, prefix)
+            t = ctx.fresh_const("tau", Ts)
+            ctx.check(f"{prefix}::binds-its-id-to-the-attribute-of-the-child-value",
+                      z3.And(bound(cl["b"], vid(22)), z3.Implies(ext(cl["b"], t), get(cl["b"], vid(22)) == val(t))))
+            check_frame(vm, world, cl, 22, ["child"], prefix)
+
+    def tau_hyps(world, t):
+        return [tval(t, vid(22)) == world.attr_fn("a")(world.children["child"].val(t))]
+    return Harness(f"value-Attribute[{role}]", run, spec=Spec(), covers=["yielded"], finalize=finish(prefix, True, tau_hyps),
+                   timeout_ms=3000, retry_unknown=False, ematching_only=True)
+
+
+def frame_domain_mapping():
+    """In operand role _build_operation_result_and_update_truth_value_ does not touch the node's truth flag."""
+    def run(vm):
+        ctx = vm.ctx
+        world = EqlWorld(vm)
+        for start in (False, True):
+            parent = vm.alloc(vm.loader.cls(SYM, "Comparator"), {"_id_": 10}, tag="parent")
+            other_root = vm.alloc(vm.loader.cls(SYM, "SymbolicExpression"), {"_id_": 1}, tag="root")
+            node = vm.alloc(vm.loader.cls(SYM, "Attribute"), {"_id_": 22, "_is_false_": start, "_eval_parent_": parent, "_conditions_root_": other_root}, tag="Attribute")
+            b = ctx.fresh_const("b", Bs)
+            cr = vm.alloc(world.OR, {"bindings": Bnd(b, world), "is_false": False, "operand": None})
+            r = vm.call_method(node, "_build_operation_result_and_update_truth_value_", cr, world.hashed(vm, ctx.fresh_const("v", Vs)))
+            ctx.check("DomainMapping._build_operation_result_and_update_truth_value_::operand-role-leaves-the-truth-flag-alone",
+                      z3.BoolVal(node.fields["_is_false_"] is start and r.fields["is_false"] is start))
+    return Harness("frame-DomainMapping", run, spec=Spec(), ematching_only=True)
+
+
+def descriptor_harness(n_selected):
+    prefix = "QueryObjectDescriptor._evaluate__"
+
+    def run(vm):
+        ctx = vm.ctx
+        world = EqlWorld(vm)
+        cond = world.child("cond", 11)
+        cond.fields["_conclusion_"] = PySet()
+        sel = [world.child(f"sel{k}", 31 + k, kind="operand") for k in range(n_selected)]
+        world.known_ids |= {30}
+        node = vm.alloc(vm.loader.cls(SYM, "SetOf"), {"_child_": cond, "selected_variables": PyList(sel), "_id_": 30, "_is_false_": False,
+                                                     "_eval_parent_": None, "_conclusion_": PySet()}, tag="SetOf")
+        C = world.children["cond"]
+        h = C.h
+        for res in vm.iterate(vm.call_method(node, "_evaluate__", Bnd(world.sigma0, world))):
+            ctx.cover("yielded")
+            cl = world.record(vm, res)
+            check_cover_per_yield(vm, world, cl, h, prefix)       # every output is a TRUE result whose extensions satisfy the condition
+            ctx.check(f"{prefix}::only-true-results-leave-the-query", z3.Not(flag_term(cl["flag"])))
+            t = ctx.fresh_const("tau", Ts)
+            for k in range(n_selected):
+                S = world.children[f"sel{k}"]
+                ctx.check(f"{prefix}::every-row-is-one-consistent-assignment-of-the-selected-expressions",
+                          z3.And(bound(cl["b"], vid(31 + k)), z3.Implies(ext(cl["b"], t), get(cl["b"], vid(31 + k)) == S.val(t))))
+
+    def tau_hyps(world, t):
+        return [world.children["cond"].h(t)]      # completeness: every assignment that satisfies the condition is returned
+    return Harness(f"query-descriptor[{n_selected}]", run, spec=Spec(), covers=["yielded"], finalize=finish(prefix, True, tau_hyps),
+                   timeout_ms=3000, retry_unknown=False, ematching_only=True)
+
+
+def descriptor_no_condition():
+    prefix = "QueryObjectDescriptor._evaluate__[no-condition]"
+
+    def run(vm):
+        ctx = vm.ctx
+        world = EqlWorld(vm)
+        sel = [world.child("sel0", 31, kind="operand")]
+        node = vm.alloc(vm.loader.cls(SYM, "SetOf"), {"_child_": None, "selected_variables": PyList(sel), "_id_": 30, "_is_false_": False,
+                                                     "_eval_parent_": None, "_conclusion_": PySet()}, tag="SetOf")
+        for res in vm.iterate(vm.call_method(node, "_evaluate__", Bnd(world.sigma0, world))):
+            ctx.cover("yielded")
+            cl = world.record(vm, res)
+            check_cover_per_yield(vm, world, cl, lambda t: z3.BoolVal(True), prefix)
+    return Harness("query-descriptor[no-condition]", run, spec=Spec(), covers=["yielded"], finalize=finish(prefix, True), timeout_ms=3000, retry_unknown=False, ematching_only=True)
+
+
+def process_result_harness():
+    def run(vm):
+        ctx = vm.ctx
+        world = EqlWorld(vm)
+        world.known_ids |= {31, 32, 33, 40}
+        s1 = vm.alloc(vm.loader.cls(SYM, "SymbolicExpression"), {"_id_": 31}, tag="selected-1")
+        s2 = vm.alloc(vm.loader.cls(SYM, "SymbolicExpression"), {"_id_": 32}, tag="selected-2")
+        b = ctx.fresh_const("b", Bs)
+        ctx.assume(z3.And(bound(b, vid(31)), bound(b, vid(32))))
+        res = vm.alloc(world.OR, {"bindings": Bnd(b, world), "is_false": False, "operand": None})
+        # entity
+        ent = vm.alloc(vm.loader.cls(SYM, "Entity"), {"selected_variables": PyList([s1])}, tag="Entity")
+        q = vm.alloc(vm.loader.cls(SYM, "An"), {"_child_": ent, "_id_": 40}, tag="An")
+        r = vm.call_method(q, "_process_result_", res)
+        ctx.check("ResultQuantifier._process_result_::entity-returns-the-value-of-the-selected-variable",
+                  z3.BoolVal(isinstance(r, STerm)) if not isinstance(r, STerm) else r.t == get(b, vid(31)))
+        # set_of
+        so = vm.alloc(vm.loader.cls(SYM, "SetOf"), {"selected_variables": PyList([s1, s2])}, tag="SetOf")
+        q2 = vm.alloc(vm.loader.cls(SYM, "An"), {"_child_": so, "_id_": 41}, tag="An")
+        vm.loader.cls(SYM, "SymbolicExpression").class_attr_vals["_id_expression_map_"] = __import__("pyvc.ops", fromlist=["make_dict"]).make_dict([(31, s1), (32, s2), (33, None)])
+        made = []
+        vm.spec.stubs["UnificationDict.__call__"] = lambda it, a, k: (made.append(a[1]), "ROW")[1]
+        r2 = vm.call_method(q2, "_process_result_", res)
+        ok = r2 == "ROW" and len(made) == 1
+        if ok:
+            from pyvc.ops import dict_items
+            items = dict_items(made[0])
+            ok = {id(k) for k, _ in items} == {id(s1), id(s2)}
+            for k, v in items:
+                want = get(b, vid(31 if k is s1 else 32))
+                ctx.check("ResultQuantifier._process_result_::set_of-row-maps-each-selected-expression-to-its-value", v.fields["value"].t == want)
+        ctx.check("ResultQuantifier._process_result_::set_of-row-has-exactly-the-selected-expressions", z3.BoolVal(bool(ok)), detail=repr(made))
+    return Harness("process-result", run, spec=Spec(), ematching_only=True, timeout_ms=3000, retry_unknown=False)
+
+
+def optimize_or_harness():
+    """or_ picks the else-if form exactly when both sides range over the same domain variables (literals and predicate
+    calls are determined by those)."""
+    def run(vm):
+        ctx = vm.ctx
+        HI = vm.loader.cls(HD, "HashedIterable")
+        HV = vm.loader.cls(HD, "HashedValue")
+        Var = vm.loader.cls(SYM, "Variable")
+        Lit = vm.loader.cls(SYM, "Literal")
+        x = vm.alloc(Var, {"_id_": 1, "_predicate_type_": None}, tag="x")
+        y = vm.alloc(Var, {"_id_": 2, "_predicate_type_": None}, tag="y")
+        lit = vm.alloc(Lit, {"_id_": 3, "_predicate_type_": None}, tag="literal")
+        pred = vm.alloc(Var, {"_id_": 4, "_predicate_type_": "DecoratedMethod"}, tag="predicate-call")
+        made = []
+        vm.spec.stubs["ElseIf.__call__"] = lambda it, a, k: (made.append("ElseIf"), "ElseIf")[1]
+        vm.spec.stubs["Union.__call__"] = lambda it, a, k: (made.append("Union"), "Union")[1]
+        opt = vm.module_global(SYM, "optimize_or")
+
+        def node(vars_):
+            hi = vm.alloc(HI, {"iterable": PyList([]), "values": __import__("pyvc.ops", fromlist=["make_dict"]).make_dict(
+                [(v.fields["_id_"], vm.alloc(HV, {"value": v, "id_": v.fields["_id_"]})) for v in vars_])})
+            return vm.alloc(vm.loader.cls(SYM, "SymbolicExpression"), {"_unique_variables_": hi}, tag="side")
+        cases = [([x], [x], True), ([x, y], [y, x], True), ([x], [y], False), ([x], [x, y], False), ([x, lit], [x], True), ([x], [lit, x], True),
+                 ([x, y, pred], [x, y], True), ([x, pred], [x, y], False), ([x, y], [pred, y, x, lit], True), ([], [x], False), ([lit], [pred], True)]
+        for lv, rv, same in cases:
+            r = vm.call(opt, [node(lv), node(rv)], {})
+            ctx.check("optimize_or::else-if-iff-both-sides-range-over-the-same-domain-variables", z3.BoolVal(r == ("ElseIf" if same else "Union")),
+                      detail=f"{[v.tag for v in lv]} | {[v.tag for v in rv]} -> {r}")
+    return Harness("optimize_or", run, spec=Spec())
+
+
+_stage_a = harnesses
+
+
+def harnesses():
+    return _stage_a()[:-1] + [comparator_harness("generic"), comparator_harness("eq"), variable_harness("operand"), variable_harness("condition"),
+                              attribute_harness("operand"), attribute_harness("condition"), frame_domain_mapping(),
+                              descriptor_harness(1), descriptor_harness(2), descriptor_no_condition(), process_result_harness(),
+                              optimize_or_harness(), h_canary()]
